@@ -279,6 +279,12 @@ class Soap11(XmlDocument):
                 ctx.in_object = self.from_element(ctx, body_class,
                                                                 ctx.in_body_doc)
 
+                # a nil message element carries no arguments, just like a
+                # missing one.
+                if ctx.in_object is None and \
+                          ctx.descriptor.body_style is BODY_STYLE_WRAPPED:
+                    ctx.in_object = [None] * len(body_class._type_info)
+
         self.event_manager.fire_event('after_deserialize', ctx)
 
     def serialize(self, ctx, message):
